@@ -26,11 +26,15 @@ const (
 	mMis
 	mEAE
 	mSlow
-	nModes
+	nModes // the five modes above are the ones the w/ family enumerates exhaustively
+	// mCtx (wx/ family, cancel.go): a slow replica that honours its context: it is held by the
+	// turnstile until the harness opens it or the caller's context ends; in the latter case it
+	// stores nothing and returns the context's error.
+	mCtx = nModes
 )
 
-var modeNames = [...]string{"ok", "error", "misreport", "error-after-effect", "gate"}
-var injModes = [...]inject.Mode{inject.Pass, inject.Error, inject.Misreport, inject.ErrorAfterEffect, inject.Gate}
+var modeNames = [...]string{"ok", "error", "misreport", "error-after-effect", "gate", "ctx-slow"}
+var injModes = [...]inject.Mode{inject.Pass, inject.Error, inject.Misreport, inject.ErrorAfterEffect, inject.Gate, inject.Pass}
 
 const (
 	// pickWait bounds the wait for "did the call return yet?".  It only selects the next harness
@@ -50,6 +54,12 @@ type ctl struct {
 	err     error
 	doneSeq int64
 	handed  []byte // the bytes the replica read from the reader the replica store gave it
+	// kind selects WHICH error a failing replica returns / HOW a misreporting replica misreports
+	// (errkinds.go); 0 = what the injector does by itself.  ctxAware: see mCtx.
+	kind     int
+	mode     int
+	trueSize uint32
+	ctxAware bool
 }
 
 func newCtl(held bool) *ctl {
@@ -88,10 +98,24 @@ func (t *turnstile) ReceiveBlob(ctx context.Context, br blob.Ref, src io.Reader)
 		return t.Storage.ReceiveBlob(ctx, br, src)
 	}
 	close(c.arrived)
-	<-c.open
 	// record what the replica reads, when it reads it (a slow replica reads late)
 	var rec bytes.Buffer
+	if c.ctxAware {
+		select {
+		case <-c.open:
+		case <-ctx.Done():
+			// an upload that is aborted because its context ended: the data was read, nothing is stored
+			io.Copy(&rec, src)
+			c.sb, c.err, c.handed = blob.SizedRef{}, ctxAbortErr(c.kind, br, ctx), rec.Bytes()
+			c.doneSeq = inject.Seq()
+			close(c.done)
+			return c.sb, c.err
+		}
+	} else {
+		<-c.open
+	}
 	sb, err := t.Storage.ReceiveBlob(ctx, br, io.TeeReader(src, &rec))
+	sb, err = applyKind(c, br, sb, err)
 	c.sb, c.err, c.handed = sb, err, rec.Bytes()
 	c.doneSeq = inject.Seq()
 	close(c.done)
@@ -106,6 +130,27 @@ type wcase struct {
 	Modes    []int  `json:"-"`
 	Sched    string `json:"schedule"` // free | free-early | free-late | free-late-overlap | perm
 	Order    []int  `json:"completion_order,omitempty"`
+	// Kinds (errkinds.go): per replica, which error / which wrong answer a failing replica gives.
+	Kinds []int `json:"-"`
+	// Ctx (cancel.go): how the caller's context ends during the call ("" = it does not).
+	Ctx string `json:"caller_context,omitempty"`
+	// lenientErr is set at run time when the caller's context ended before the call was seen to have
+	// returned: an error is then an acceptable answer whatever the replicas could have done.
+	lenientErr bool
+}
+
+func (c *wcase) schedDesc() string {
+	if c.Ctx != "" {
+		return c.Sched + ", caller context: " + c.Ctx
+	}
+	return c.Sched
+}
+
+func (c *wcase) kind(i int) int {
+	if i < len(c.Kinds) {
+		return c.Kinds[i]
+	}
+	return 0
 }
 
 func (c *wcase) modeStrings() []string {
@@ -334,6 +379,12 @@ func runWriteShard(r *ev.Run, n, m int, distinct bool, shard int, cases []wcase)
 		r.Inconclusive(err.Error())
 		return
 	}
+	runShardOn(r, cl, shard, cases)
+}
+
+// runShardOn runs the receives of one shard, one after another, on cluster cl.
+func runShardOn(r *ev.Run, cl *cluster, shard int, cases []wcase) {
+	n, m, distinct := cl.n, cl.m, cl.distinct
 	r.Note("n", fmt.Sprintf("n%d", n))
 	if m < n {
 		r.Note("quorum", "m<n")
@@ -348,7 +399,11 @@ func runWriteShard(r *ev.Run, n, m int, distinct bool, shard int, cases []wcase)
 	}
 	var used []sto.Blob
 	usedEmpty := false
-	erng := r.Rand(fmt.Sprintf("wempty/%s/%d", cl.cfg(), shard))
+	fam := cl.family
+	if fam == "" {
+		fam = "w"
+	}
+	erng := r.Rand(fmt.Sprintf("%sempty/%s/%d", fam, cl.cfg(), shard))
 	for j := range cases {
 		// the empty blob meets the first case of the shard and a seeded ~1/12 of all others, whatever
 		// their fault assignment and schedule
@@ -377,8 +432,8 @@ func runWriteShard(r *ev.Run, n, m int, distinct bool, shard int, cases []wcase)
 	}
 	// Finally: the whole store against the union of the read replicas (stat / enumerate over the
 	// natural overlap left behind by the faulted receives).
-	rec := map[string]any{"case_id": fmt.Sprintf("w/%s/shard%d/final-audit;", cl.cfg(), shard), "config": cl.cfg(), "receives": len(cases)}
-	auditReads(r, cl, used, r.Rand(fmt.Sprintf("waudit/%s/%d", cl.cfg(), shard)), false, "after-writes", rec)
+	rec := map[string]any{"case_id": fmt.Sprintf("%s/%s/shard%d/final-audit;", fam, cl.cfg(), shard), "config": cl.cfg(), "receives": len(cases)}
+	auditReads(r, cl, used, r.Rand(fmt.Sprintf("%saudit/%s/%d", fam, cl.cfg(), shard)), false, "after-writes", rec)
 }
 
 type repObs struct {
@@ -395,6 +450,7 @@ type writeWitness struct {
 	wcase
 	Config   string   `json:"config"`
 	ModeList []string `json:"modes"`
+	KindList []string `json:"answer_kinds,omitempty"`
 	Blob     string   `json:"blob"`
 	TrueSize int      `json:"true_size"`
 	Result   string   `json:"result"`
@@ -440,8 +496,13 @@ func runWriteCase(r *ev.Run, cl *cluster, wc *wcase, b sto.Blob, filler *sto.Blo
 		if wc.Modes[i] != mOK {
 			nd.plan.FaultAt(idx[i], injModes[wc.Modes[i]])
 		}
-		held := wc.Sched == "perm" && wc.Modes[i] != mSlow
+		held := (wc.Sched == "perm" && wc.Modes[i] != mSlow) || wc.Modes[i] == mCtx
 		ctls[i] = newCtl(held)
+		ctls[i].ctxAware = wc.Modes[i] == mCtx
+		ctls[i].kind, ctls[i].mode, ctls[i].trueSize = wc.kind(i), wc.Modes[i], uint32(len(b.Data))
+		if k := wc.kind(i); k != 0 || wc.Modes[i] == mCtx {
+			r.Note("replica_answer_kinds", kindName(wc.Modes[i], k))
+		}
 		nd.ts.set(b.Ref, ctls[i])
 		r.Note("modes_assigned", modeNames[wc.Modes[i]])
 	}
@@ -450,7 +511,7 @@ func runWriteCase(r *ev.Run, cl *cluster, wc *wcase, b sto.Blob, filler *sto.Blo
 			nd.ts.set(b.Ref, nil)
 		}
 	}()
-	wit := &writeWitness{wcase: *wc, Config: cl.cfg(), ModeList: wc.modeStrings(), Blob: b.Ref.String(), TrueSize: len(b.Data)}
+	wit := &writeWitness{wcase: *wc, Config: cl.cfg(), ModeList: strings.Split(modeKindStrings(wc.Modes, wc.Kinds), ","), KindList: wc.kindStrings(), Blob: b.Ref.String(), TrueSize: len(b.Data)}
 	opened := make([]string, n)
 
 	var (
@@ -460,6 +521,33 @@ func runWriteCase(r *ev.Run, cl *cluster, wc *wcase, b sto.Blob, filler *sto.Blo
 		panicked any
 		ret      = make(chan struct{})
 	)
+	// The caller's context (cancel.go).  endCaller ends it (once); whether the call had been SEEN to
+	// have returned before decides if an error is an acceptable answer regardless of the replicas.
+	ctx, endCtx := callerCtx(wc.Ctx)
+	ctxEnded := false
+	wc.lenientErr = false
+	endCaller := func() {
+		if ctxEnded || wc.Ctx == "" {
+			return
+		}
+		ctxEnded = true
+		when := "after-return"
+		if !closed(ret) {
+			when = "before-return"
+			wc.lenientErr = true
+		}
+		for i := range cl.w {
+			if wc.Modes[i] == mCtx {
+				opened[i] = when
+			}
+		}
+		r.Note("caller_context_end", wc.Ctx+"/"+when)
+		endCtx()
+	}
+	defer endCtx()
+	if strings.HasPrefix(wc.Ctx, "pre-") {
+		endCaller() // the context is over before the call starts
+	}
 	go func() {
 		defer close(ret)
 		defer func() {
@@ -467,7 +555,7 @@ func runWriteCase(r *ev.Run, cl *cluster, wc *wcase, b sto.Blob, filler *sto.Blo
 				panicked = p
 			}
 		}()
-		sb, rerr = blobserver.Receive(context.Background(), cl.s, b.Ref, bytes.NewReader(b.Data))
+		sb, rerr = blobserver.Receive(ctx, cl.s, b.Ref, bytes.NewReader(b.Data))
 		ackSeq = inject.Seq() // the ack, ordered against the replicas' stored events
 	}()
 
@@ -551,6 +639,47 @@ func runWriteCase(r *ev.Run, cl *cluster, wc *wcase, b sto.Blob, filler *sto.Blo
 				openBarrier(i, blocked)
 			}
 		}
+	case "ctx-blocked":
+		// everything that is not slow finishes; then, with the slow replicas (gated or ctx-aware) in the
+		// middle of their upload, the caller's context ends; ctx-aware replicas abort, gated ones
+		// (which ignore the context) are released afterwards and store the blob.
+		for i := range cl.w {
+			slow := wc.Modes[i] == mSlow || wc.Modes[i] == mCtx
+			if !slow && !waitFor(ctls[i].done, watchdog) {
+				return stuck(fmt.Sprintf("return of replica %d", i))
+			}
+			if slow && !waitFor(ctls[i].arrived, watchdog) {
+				return stuck(fmt.Sprintf("call of replica %d", i))
+			}
+		}
+		blocked := !waitFor(ret, pickWait)
+		endCaller()
+		for i := range cl.w {
+			if wc.Modes[i] == mCtx && !waitFor(ctls[i].done, watchdog) {
+				return stuck(fmt.Sprintf("return of ctx-aware replica %d", i))
+			}
+		}
+		for i := range cl.w {
+			if wc.Modes[i] == mSlow {
+				openBarrier(i, blocked)
+			}
+		}
+	case "ctx-early":
+		// the context ends as soon as the ctx-aware replicas were called, racing with everything else
+		for i := range cl.w {
+			if wc.Modes[i] == mCtx && !waitFor(ctls[i].arrived, watchdog) {
+				return stuck(fmt.Sprintf("call of replica %d", i))
+			}
+		}
+		endCaller()
+		for i := range cl.w {
+			if wc.Modes[i] == mSlow {
+				if !waitFor(ctls[i].arrived, watchdog) {
+					return stuck(fmt.Sprintf("call of replica %d", i))
+				}
+				openBarrier(i, false)
+			}
+		}
 	case "perm":
 		// fully serialised: replica Order[0] completes, then (if the call has not returned) Order[1], …
 		blocked := false
@@ -558,7 +687,11 @@ func runWriteCase(r *ev.Run, cl *cluster, wc *wcase, b sto.Blob, filler *sto.Blo
 			if !waitFor(ctls[i].arrived, watchdog) {
 				return stuck(fmt.Sprintf("call of replica %d", i))
 			}
-			openBarrier(i, blocked)
+			if wc.Modes[i] == mCtx {
+				endCaller() // a ctx-aware replica "completes" by having its context ended (all of them at once)
+			} else {
+				openBarrier(i, blocked)
+			}
 			if !waitFor(ctls[i].done, watchdog) {
 				return stuck(fmt.Sprintf("return of replica %d", i))
 			}
@@ -567,6 +700,7 @@ func runWriteCase(r *ev.Run, cl *cluster, wc *wcase, b sto.Blob, filler *sto.Blo
 			}
 		}
 	}
+	endCaller() // (no-op unless the case has a caller context that was not ended by its schedule)
 	// every barrier is open now: all replicas finish, and the call must return
 	allDone := true
 	for i := range cl.w {
@@ -586,7 +720,7 @@ func runWriteCase(r *ev.Run, cl *cluster, wc *wcase, b sto.Blob, filler *sto.Blo
 		wit.Result = "no return"
 		fillObs(cl, wc, b, ctls, opened, wit)
 		r.Violation(fmt.Sprintf("hang/receive-n%dm%d", cl.n, cl.m),
-			fmt.Sprintf("[%s] ReceiveBlob did not return within %v after all %d replicas had returned (modes %v, schedule %s)", cl.cfg(), watchdog, n, wit.ModeList, wc.Sched), wit)
+			fmt.Sprintf("[%s] ReceiveBlob did not return within %v after all %d replicas had returned (modes %v, schedule %s)", cl.cfg(), watchdog, n, wit.ModeList, wc.schedDesc()), wit)
 		return false
 	}
 	if panicked != nil {
@@ -676,7 +810,7 @@ func judgeWrite(r *ev.Run, cl *cluster, wc *wcase, b sto.Blob, ctls []*ctl, sb b
 		switch wc.Modes[i] {
 		case mOK, mSlow:
 			good = okRet && stored
-		case mErr:
+		case mErr, mCtx:
 			good = c.err != nil && !stored
 		case mEAE:
 			good = c.err != nil && stored
@@ -711,6 +845,7 @@ func judgeWrite(r *ev.Run, cl *cluster, wc *wcase, b sto.Blob, ctls []*ctl, sb b
 		}
 	}
 	can := wc.canSucceed()
+	noteRound4(r, cl, wc, class, quorum, rerr, ackedEarly)
 	if rerr == nil {
 		r.Note("outcomes", "ack")
 		r.Count("ack_"+nm, 1)
@@ -720,11 +855,11 @@ func judgeWrite(r *ev.Run, cl *cluster, wc *wcase, b sto.Blob, ctls []*ctl, sb b
 		r.Eval(3)
 		if sb.Ref != b.Ref || sb.Size != trueSize {
 			r.Violation("wrong-size-acked/"+nm,
-				fmt.Sprintf("[%s] ReceiveBlob of %v (%d bytes) acknowledged %v (modes %v, schedule %s)", cl.cfg(), b.Ref, trueSize, sb, wit.ModeList, wc.Sched), wit)
+				fmt.Sprintf("[%s] ReceiveBlob of %v (%d bytes) acknowledged %v (modes %v, schedule %s)", cl.cfg(), b.Ref, trueSize, sb, wit.ModeList, wc.schedDesc()), wit)
 		}
 		if quorum < m {
 			r.Violation("ack-below-quorum/"+nm,
-				fmt.Sprintf("[%s] ReceiveBlob acknowledged success when only %d replica(s) had stored the blob with the correct size (minWritesForSuccess=%d; modes %v, schedule %s)", cl.cfg(), quorum, m, wit.ModeList, wc.Sched), wit)
+				fmt.Sprintf("[%s] ReceiveBlob acknowledged success when only %d replica(s) had stored the blob with the correct size (minWritesForSuccess=%d; modes %v, schedule %s)", cl.cfg(), quorum, m, wit.ModeList, wc.schedDesc()), wit)
 		}
 		if can < m {
 			r.Violation("ack-when-quorum-impossible/"+nm,
@@ -737,9 +872,11 @@ func judgeWrite(r *ev.Run, cl *cluster, wc *wcase, b sto.Blob, ctls []*ctl, sb b
 			r.Note("outcomes", "error-after-all-replicas-done")
 		}
 		r.Eval(1)
-		if can >= m {
+		if wc.lenientErr {
+			r.Note("outcomes", "error-after-caller-context-ended")
+		} else if can >= m {
 			r.Violation("error-despite-quorum/"+nm,
-				fmt.Sprintf("[%s] ReceiveBlob failed (%v) although %d replica(s) stored and acknowledged the blob (minWritesForSuccess=%d; modes %v, schedule %s)", cl.cfg(), rerr, can, m, wit.ModeList, wc.Sched), wit)
+				fmt.Sprintf("[%s] ReceiveBlob failed (%v) although %d replica(s) stored and acknowledged the blob (minWritesForSuccess=%d; modes %v, schedule %s)", cl.cfg(), rerr, can, m, wit.ModeList, wc.schedDesc()), wit)
 		}
 	}
 
@@ -926,4 +1063,67 @@ func mapSig(sig, site string, n int) string {
 		return "enum-dup"
 	}
 	return fmt.Sprintf("%s/%s.%s", class, site, op)
+}
+
+// noteRound4 records which of the round-4 situations a judged receive was (evidence only).
+func noteRound4(r *ev.Run, cl *cluster, wc *wcase, class string, quorum int, rerr error, ackedEarly bool) {
+	// below quorum with every non-acknowledging replica failing in the same way
+	if class == "quorum-impossible" {
+		how, uniform := "", true
+		for i, m := range wc.Modes {
+			var h string
+			switch m {
+			case mOK, mSlow:
+				continue
+			case mErr:
+				h = kindName(m, wc.kind(i))
+			case mEAE:
+				h = "lost-ack:" + kindName(m, wc.kind(i))
+			case mMis:
+				h = kindName(m, wc.kind(i))
+			case mCtx:
+				h = "ctx-slow-aborted"
+			}
+			if how != "" && h != how {
+				uniform = false
+			}
+			how = h
+		}
+		if uniform && how != "" {
+			r.Note("below_quorum_every_failure_is", how)
+		}
+	}
+	// config family: receives that a quorum taken from len(readBackends) would decide differently
+	if cl.family == "wc" && cl.minCfg == "default" && cl.distinct {
+		nr, can := len(cl.read), wc.canSucceed()
+		if nr < cl.n && can >= nr && can < cl.n {
+			r.Note("cfg_below_default_quorum", "read-shorter/stored-by-at-least-len(readBackends)")
+		}
+		if nr > cl.n && can == cl.n {
+			r.Note("cfg_below_default_quorum", "read-longer/all-write-replicas-ok")
+		}
+	}
+	if wc.Ctx != "" {
+		for i, m := range wc.Modes {
+			if m == mCtx {
+				r.Note("caller_context_outcomes", "ctx-aware-replica-aborted")
+			}
+			if m == mSlow && wc.lenientErr {
+				_ = i
+				r.Note("caller_context_outcomes", "gated-replica-stored-after-context-ended")
+			}
+		}
+		switch {
+		case wc.lenientErr && rerr != nil && wc.Sched == "ctx-blocked":
+			r.Note("caller_context_outcomes", "ended-while-call-blocked/error")
+		case wc.lenientErr && rerr != nil:
+			r.Note("caller_context_outcomes", "ended-before-return/error")
+		case wc.lenientErr && quorum >= cl.m:
+			r.Note("caller_context_outcomes", "ended-before-return/ack-with-quorum")
+		case !wc.lenientErr && rerr == nil:
+			r.Note("caller_context_outcomes", "ended-after-return/ack")
+		case !wc.lenientErr:
+			r.Note("caller_context_outcomes", "ended-after-return/error")
+		}
+	}
 }
